@@ -163,6 +163,34 @@ func (d *WordDecoder) DecodeHeader(header string) (string, error) {
 	return string(decoded), nil
 }
 
+// encodeHeaderText returns str in the form stored in the Subject and File header fields.
+//
+// Text containing non-ASCII characters is Q-encoded with DefaultCharset (as defined by RFC 2047). ASCII-only text
+// is stored verbatim, unless it contains "=?": the reader (WordDecoder.DecodeHeader) would take that for an
+// encoded-word and return something else than what was set, so such text is Q-encoded as well.
+func encodeHeaderText(str string) string {
+	encoded, _ := toCharset(DefaultCharset, str)
+	if q := mime.QEncoding.Encode(DefaultCharset, encoded); q != encoded || !strings.Contains(encoded, "=?") {
+		return q
+	}
+
+	// mime.QEncoding leaves printable ASCII alone, so encode the word here.
+	var buf strings.Builder
+	buf.WriteString("=?" + DefaultCharset + "?q?")
+	for i := 0; i < len(encoded); i++ {
+		switch b := encoded[i]; {
+		case b == ' ':
+			buf.WriteByte('_')
+		case b >= '!' && b <= '~' && b != '=' && b != '?' && b != '_':
+			buf.WriteByte(b)
+		default:
+			fmt.Fprintf(&buf, "=%02X", b)
+		}
+	}
+	buf.WriteString("?=")
+	return buf.String()
+}
+
 func toCharset(set, s string) (string, error) {
 	buf := new(bytes.Buffer)
 	w, err := charset.NewWriter(set, buf)
